@@ -73,6 +73,15 @@ prop("C15",
  "Trusted: go/ssa, regexp.ReplaceAllStringFunc semantics.",
  "parameter-role propagation over the call graph, phi-edge guard analysis, loop-carried haystack detection", "DESIGN.md section 3, C15")
 
+prop("C05",
+ "Validity of the placeholder constants and of the class->placeholder selection, decided on source constants and SSA: each placeholder constant is a member of its class (RFC 3339 date, 24 hex digits, valid base64, e-mail literal accepted by the classifier pattern and length bounds extracted from the source, number 0, boolean false - evaluated by the checker on the constants, no repository code runs); in the scalar step the guard atoms of every choke-point call select the placeholder of exactly that class ($date, $oid, $binary.base64, e-mail, generic, number, boolean), parent / grand-parent key are the last / second-to-last path elements; the replacement text is stored only by init and its setter fed by --replacement; $binary.subType is exempt. Level 'other': JSON rendering of an arbitrary replacement string is the library's.",
+ "Trusted: time.Parse/regexp/base64 in the checker agree with the Go runtime the tool is built with; encoding/json renders strings faithfully.",
+ "constant evaluation of source constants with checker-side class predicates, guard atoms at the choke-point calls, store scan of the replacement global", "DESIGN.md section 3, C05")
+prop("C19",
+ "Fixed-point structure of redaction, decided on source constants and SSA: every placeholder constant, fed back through the class tests extracted from the same source, selects the same arm and yields the same constant (e-mail literal accepted, default replacement not e-mail shaped and not '$'-prefixed, wrapper arms keyed on key and string type only, number/boolean placeholders keep their JSON kind, remote placeholder constant); every non-raw return of the scalar step is one of those constants, the replacement global or a choke-point result over them; parse followed by serialise keeps kinds, key order and number text (UseNumber before the first token, objects rebuilt in token order, Front-to-Next serialisation, containers never handed to encoding/json). Level 'other': byte-level canonicity of encoding/json on its own output is not decided.",
+ "Trusted: encoding/json is canonical on its own output; a user-supplied e-mail-shaped replacement is excluded by the statement.",
+ "constant evaluation with the extracted classifier, return-value classification of the scalar step, parser/serialiser agreement rules shared with C03/C04", "DESIGN.md section 3, C19")
+
 ALL = ["C%02d" % i for i in range(1, 21)]
 checks = []
 for pid in ALL:
